@@ -304,7 +304,8 @@ package sstables
 
 //@ func NewSuperSSTableReader
 //@   props C08
-//@   ensures r0.readers === readers && r0.comp == comp
+//@   ensures r0 != nil && r0.readers === readers && r0.comp == comp
+//@   fresh r0
 //@   modifies nothing
 
 // ---------------------------------------------------------------------------------------------------
